@@ -193,25 +193,31 @@ func (fs *Filespace) Writer(destPath string) (writer filesystem.Writer, err erro
 		return nil, err
 	}
 	dir.Lock()
-	defer dir.Unlock()
 	if node, err = dir.getNode(destNodeName); err != nil {
 		file = NewFile(destNodeName, filesystem.DefaultUnixFileMode, time.Now(), []byte{})
 		if err = dir.addNode(file); err != nil {
+			dir.Unlock()
 			return nil, err
 		}
 	} else {
 		if file, ok = node.(*File); !ok {
+			dir.Unlock()
 			return nil, goaterr.Errorf("Node %s must be a file", destPath)
 		}
-		file.time = time.Now()
 	}
-	return NewFileHandler(file), nil
+	dir.Unlock()
+	handler := NewFileHandler(file)
+	file.time = time.Now()
+	file.data = []byte{}
+	return handler, nil
 }
 
 // Reader return a file node reader
 func (fs *Filespace) Reader(srcPath string) (reader filesystem.Reader, err error) {
 	var file *File
-	srcPath = varutil.CleanPath(srcPath)
+	if srcPath, err = varutil.ReduceAbsPath(srcPath); err != nil {
+		return nil, err
+	}
 	if file, err = getFileByPath(fs.root, srcPath); err != nil {
 		return nil, err
 	}
